@@ -1829,6 +1829,33 @@ static int64_t eval(Node *node) {
   return eval2(node, NULL);
 }
 
+// Convert a folded value to the representation of `ty`, so that a
+// constant expression has the same value as at run time.
+static int64_t eval_trunc(Type *ty, int64_t val) {
+  if (!is_integer(ty))
+    return val;
+  if (ty->kind == TY_BOOL)
+    return val != 0;
+
+  // Not conditional expressions: their arms would be converted to
+  // their common unsigned type, losing the sign.
+  switch (ty->size) {
+  case 1:
+    if (ty->is_unsigned)
+      return (uint8_t)val;
+    return (int8_t)val;
+  case 2:
+    if (ty->is_unsigned)
+      return (uint16_t)val;
+    return (int16_t)val;
+  case 4:
+    if (ty->is_unsigned)
+      return (uint32_t)val;
+    return (int32_t)val;
+  }
+  return val;
+}
+
 // Evaluate a given node as a constant expression.
 //
 // A constant expression is either just a number or ptr+n where ptr
@@ -1843,21 +1870,21 @@ static int64_t eval2(Node *node, char ***label) {
 
   switch (node->kind) {
   case ND_ADD:
-    return eval2(node->lhs, label) + eval(node->rhs);
+    return eval_trunc(node->ty, eval2(node->lhs, label) + eval(node->rhs));
   case ND_SUB:
-    return eval2(node->lhs, label) - eval(node->rhs);
+    return eval_trunc(node->ty, eval2(node->lhs, label) - eval(node->rhs));
   case ND_MUL:
-    return eval(node->lhs) * eval(node->rhs);
+    return eval_trunc(node->ty, eval(node->lhs) * eval(node->rhs));
   case ND_DIV:
     if (node->ty->is_unsigned)
       return (uint64_t)eval(node->lhs) / eval(node->rhs);
-    return eval(node->lhs) / eval(node->rhs);
-  case ND_NEG:
-    return -eval(node->lhs);
+    return eval_trunc(node->ty, eval(node->lhs) / eval(node->rhs));
   case ND_MOD:
     if (node->ty->is_unsigned)
       return (uint64_t)eval(node->lhs) % eval(node->rhs);
     return eval(node->lhs) % eval(node->rhs);
+  case ND_NEG:
+    return eval_trunc(node->ty, -eval(node->lhs));
   case ND_BITAND:
     return eval(node->lhs) & eval(node->rhs);
   case ND_BITOR:
@@ -1865,7 +1892,7 @@ static int64_t eval2(Node *node, char ***label) {
   case ND_BITXOR:
     return eval(node->lhs) ^ eval(node->rhs);
   case ND_SHL:
-    return eval(node->lhs) << eval(node->rhs);
+    return eval_trunc(node->ty, eval(node->lhs) << eval(node->rhs));
   case ND_SHR:
     if (node->ty->is_unsigned && node->ty->size == 8)
       return (uint64_t)eval(node->lhs) >> eval(node->rhs);
@@ -1889,27 +1916,13 @@ static int64_t eval2(Node *node, char ***label) {
   case ND_NOT:
     return !eval(node->lhs);
   case ND_BITNOT:
-    return ~eval(node->lhs);
+    return eval_trunc(node->ty, ~eval(node->lhs));
   case ND_LOGAND:
     return eval(node->lhs) && eval(node->rhs);
   case ND_LOGOR:
     return eval(node->lhs) || eval(node->rhs);
-  case ND_CAST: {
-    int64_t val = eval2(node->lhs, label);
-    if (is_integer(node->ty)) {
-      switch (node->ty->size) {
-      case 1: return node->ty->is_unsigned ? (uint8_t)val : (int8_t)val;
-      case 2: return node->ty->is_unsigned ? (uint16_t)val : (int16_t)val;
-      case 4:
-        // Not a conditional expression: its arms would be converted to
-        // their common type uint32_t, losing the sign of an int.
-        if (node->ty->is_unsigned)
-          return (uint32_t)val;
-        return (int32_t)val;
-      }
-    }
-    return val;
-  }
+  case ND_CAST:
+    return eval_trunc(node->ty, eval2(node->lhs, label));
   case ND_ADDR:
     return eval_rval(node->lhs, label);
   case ND_LABEL_VAL:
